@@ -46,7 +46,7 @@ Example g1_end_to_end :
     (forall input fuel' t, tokens_in_range g1 input -> no_eof g1 input ->
        run g1 (built_automaton b) fuel' input = RAccept t -> valid_tree g1 t /\ leaves_in_order t input).
 Proof.
-  destruct (built_ex _ g1_fact g1_runs) as (b & E & Hv). unfold g1_fact in Hv.
+  destruct (built_ex (from_yacc_mirror g1 noprec noprec u32max 100 [] []) g1_fact g1_runs) as (b & E & Hv). unfold g1_fact in Hv.
   exists b. split; [exact E|].
   assert (Hrep : reports_no_conflict b = true) by exact (f_equal (fun x => snd (fst (fst x))) Hv).
   assert (Hcf : conflict_free_report g1 noprec noprec b).
@@ -57,7 +57,7 @@ Proof.
   split; [exact Hcf|]. split; [exact HS|]. split; [exact HC|]. split.
   - exact (construction_accepts_sentences g1 _ _ _ _ _ _ b g1_wf Hcons E Hcf).
   - intros input fuel' t Hr Hne Hrun.
-    destruct (construction_sound g1 _ _ _ _ _ _ b g1_wf Hcons E input fuel' t Hr Hne Hrun) as (s & _ & _ & Hv & Hl).
+    destruct (construction_sound g1 _ _ _ _ _ _ b g1_wf Hcons E input fuel' t Hr Hne Hrun) as (s & _ & _ & Hvt & Hl).
     split; assumption.
 Qed.
 
@@ -112,8 +112,8 @@ Example expr_sound ds b : from_yacc_decl g_expr ds [] u32max 100 [] [] = Done (S
 Proof.
   intros H input fuel' t Hr Hne Hrun.
   assert (Hwf : wf_grammar g_expr = true) by (vm_compute; reflexivity).
-  destruct (construction_decl_sound g_expr ds [] u32max 100 [] [] b Hwf H) as (_ & _ & Hs).
-  destruct (Hs input fuel' t Hr Hne Hrun) as (s & _ & _ & Hv & Hl). split; assumption.
+  destruct (construction_decl_sound g_expr ds [] u32max 100%nat [] [] b Hwf H) as (_ & _ & Hs).
+  destruct (Hs input fuel' t Hr Hne Hrun) as (s & _ & _ & Hvt & Hl). split; assumption.
 Qed.
 
 (* ---- "conflicts() is None" is not enough for completeness ---------------------------------------------
@@ -137,13 +137,6 @@ Proof.
   apply d_refl.
 Qed.
 
-Definition construction_complete_reports_only_refuted_stmt : Prop :=
-  exists g ds pn max_st fuel b w,
-    wf_grammar g = true /\
-    from_yacc_decl g ds pn max_st fuel [] [] = Done (Some b) /\ reports_no_conflict b = true /\
-    sentence g w /\ no_eof g w /\ tokens_in_range g w /\
-    exists k st, run g (built_automaton b) 100 w = RReject k st.
-
 Definition na_fact (b : built) : Prop :=
   reports_no_conflict b = true /\ run g_na (built_automaton b) 100 [1; 0; 1; 0; 1] = RReject 3 4.
 
@@ -156,7 +149,7 @@ Proof. vm_compute. split; reflexivity. Qed.
 
 Lemma construction_complete_reports_only_refuted : construction_complete_reports_only_refuted_stmt.
 Proof.
-  destruct (built_ex _ na_fact na_runs) as (b & E & H1 & H2).
+  destruct (built_ex (from_yacc_decl g_na ds_na [] u32max 100 [] []) na_fact na_runs) as (b & E & H1 & H2).
   exists g_na, ds_na, [], u32max, 100%nat, b, [1; 0; 1; 0; 1].
   split; [vm_compute; reflexivity|]. split; [exact E|]. split; [exact H1|].
   split; [exact na_sentence|]. split.
